@@ -1393,6 +1393,16 @@ class TestCaseInfo:
     error: bool = None
 
 
+def _exception_message(excInstance):
+    """str(excInstance), or a stand-in if it cannot render itself."""
+    try:
+        return str(excInstance)
+    except UnicodeEncodeError:
+        return 'Could not extract error str for unicode error'
+    except Exception:
+        return '<exception str() failed>'
+
+
 def get_test_class_name(test):
     """Compute the test class name from the test object."""
     return f'{test.__module__}.{test.__class__.__name__}'
@@ -1608,7 +1618,7 @@ class XMLOutputFormattingWrapper:
 
                     try:
                         excType, excInstance, tb = testCase.error
-                        errorMessage = str(excInstance)
+                        errorMessage = _exception_message(excInstance)
                         stackTrace = ''.join(traceback.format_tb(tb))
                     finally:  # Avoids a memory leak
                         del tb
@@ -1626,11 +1636,7 @@ class XMLOutputFormattingWrapper:
 
                     try:
                         excType, excInstance, tb = testCase.failure
-                        errorMessage = str(excInstance)
-                        stackTrace = ''.join(traceback.format_tb(tb))
-                    except UnicodeEncodeError:
-                        errorMessage = 'Could not extract error str ' \
-                            'for unicode error'
+                        errorMessage = _exception_message(excInstance)
                         stackTrace = ''.join(traceback.format_tb(tb))
                     finally:  # Avoids a memory leak
                         del tb
